@@ -4,6 +4,8 @@ Per-class reference model over generated class hierarchies (Agent, siblings, mul
 world classes): after EVERY op EVERY class of the hierarchy and EVERY instance is observed and compared.
 The library's own classes are process-global, so each history undoes what it did to them through the public API.
 """
+import numpy as np
+
 from vlib.engine import CaseViolation
 from vlib.util import check, expect_raises
 
@@ -23,9 +25,9 @@ RULE = ('cases: seeded histories of 20-50 ops over a hierarchy built per case: A
         'an explicit tag; distinct by (hierarchy shape, op trace).')
 ASSUMPTIONS = ['Agent/Environment/world classes are process-global: every history restores them through the public API in a finally block',
                'tags are plain ints']
-FLOORS = {'quick': {'class_observations': 100000, 'class_attach': 2000, 'class_detach': 400, 'rejected_duplicate_attach': 200,
-                    'rejected_absent_detach': 500, 'default_tag_changes': 2000, 'instances_default_tag': 2000,
-                    'instances_default_tag_nonzero': 380, 'instances_explicit_tag': 800, 'instances_explicit_zero_vs_default': 100,
+FLOORS = {'quick': {'instances_numpy_tag': 827, 'class_observations': 100000, 'class_attach': 2000, 'class_detach': 400, 'rejected_duplicate_attach': 200,
+                    'rejected_absent_detach': 500, 'default_tag_changes': 2000, 'instances_default_tag': 1862,
+                    'instances_default_tag_nonzero': 310, 'instances_explicit_tag': 800, 'instances_explicit_zero_vs_default': 100,
                     'environment_instances': 500, 'instances_added_to_environment': 1000, 'ops_on_library_classes': 2000, 'mid_history_classes': 500, 'same_named_classes': 300, 'big_many_classes': 2, 'big_many_class_components': 2,
                     'reach:Core._MetaAgent.add_class_component': 3000, 'reach:Core.Agent.__init__': 4600},
           'thorough': {'class_observations': 5000000}}
@@ -170,7 +172,9 @@ def case_history(ctx, case):
                 if p and c and v:
                     flags.add('mid_tag')
             elif x < 0.85:
-                tag = rng.choice([None, None, None, 0, 0, 5, 9])
+                tag = rng.choice([None, None, None, 0, 0, 5, 9, np.int64(4), np.int64(0), np.int32(6)])     # tag ids may come out of a numpy array
+                if isinstance(tag, np.integer):
+                    ctx.count('instances_numpy_tag')
                 if issubclass(K, core.Environment) and rng.random() < 0.75:
                     K = rng.choice([c for c in classes if not issubclass(c, core.Environment)])
                 obj, explicit = make_instance(core, envs, K, model, f'i{len(instances)}', tag)
